@@ -250,6 +250,9 @@ LINT_TEXT = (" Over the property's anchor files the check also runs the reposito
              "reassigned, PRT1 sibling switches partition their labels alike, TW1 twin guards agree on fabs.")
 
 EXTRA_TEXT = {
+    'C08': " (AREA) symbolic evaluation of AreaReduce for crossings -1..3, reverse and sign: on every path the result is "
+           "+-area + (crossings odd ? area0/2 : 0) modulo area0; (CONS) the accumulator the sums are kept in conserves _s + _t "
+           "under Add, +=, -=, *=.",
     'C15': " (ECONST) the ellipsoid constants of AuxLatitude/Ellipsoid/DAuxLatitude equal their defining rational functions of (a, f); "
            "(SYMM, ALT) symmetry of the divided differences and agreement of the alternative forms of DParametric; (PRT1) "
            "ToAuxiliary/FromAuxiliary give every auxiliary-latitude kind its own arm.",
